@@ -113,7 +113,9 @@ def check(ctx):
             calls = []
 
             def lp_stub(interp, clo, args, kw, st_, node):
-                calls.append((interp.framestack[-1].fi.short if interp.framestack else "?", args))
+                # the calling method (a local helper closure wrapping the call belongs to the method that defines it)
+                where_ = next((f_.fi.short for f_ in reversed(interp.framestack) if "." in f_.fi.short), interp.framestack[-1].fi.short if interp.framestack else "?")
+                calls.append((where_, args))
                 g = args[1]
                 n = g.shape[0] if g.shape else Dim.unknown("g")
                 return interp.mk_tuple([V("arr", T("WL", *[a.term for a in args]), shape=(n,), orig=frozenset([("fresh",)]), loc=0), V("float", T("FL", *[a.term for a in args]), shape=())])
